@@ -425,12 +425,30 @@ def rule_entries(ctx):
                 produced.append((e, st))
     if not produced:
         raise AnalysisError("from_json_dict: construction of the two times not found")
+    PARSE = ("strptime", "fromisoformat", "to_datetime")
+
+    def is_dt(e, depth=0):
+        """e is a parsed datetime: a parse call, a conditional of such, or a call of a helper all of whose returns are (it may raise otherwise)"""
+        if depth > 3:
+            return False
+        if isinstance(e, ast.IfExp):
+            return is_dt(e.body, depth) and is_dt(e.orelse, depth)
+        if not isinstance(e, ast.Call):
+            return False
+        last = (dotted(e.func) or "").split(".")[-1]
+        if last in PARSE:
+            return True
+        for qual in ("FileInfo." + last, last):
+            try:
+                h = ctx.func(HCOMMON, qual, raw=True)
+            except AnalysisError:
+                continue
+            rets_ = [r_ for r_ in walk_no_nested(h.node) if isinstance(r_, ast.Return)]
+            return bool(rets_) and all(r_.value is not None and is_dt(r_.value, depth + 1) for r_ in rets_)
+        return False
     bad = []
     for e, at in produced:
-        ok_dt = isinstance(e, ast.Call) and (dotted(e.func) or "").split(".")[-1] in ("strptime", "fromisoformat", "to_datetime")
-        if isinstance(e, ast.IfExp):
-            ok_dt = all(isinstance(x, ast.Call) and (dotted(x.func) or "").split(".")[-1] in ("strptime", "fromisoformat", "to_datetime") for x in (e.body, e.orelse))
-        if not ok_dt:
+        if not is_dt(e):
             bad.append(str(norm(e))[:40])
     ctx.ob("FileInfo.from_json_dict.times", not bad, "values stored as times: %s" % ([str(norm(e))[:50] for e, _ in produced]),
            "only parsed datetimes (a missing time raises: find() cannot compare None or a list with a datetime)", node=produced[0][1], func=r)
